@@ -372,7 +372,7 @@ def _c18_stats(lines, sessions, R, M):
 PROPS["C18"] = {
     "technique": "Lean 4 theorems (one generic accessor rule instantiated for all 12 accessors; QueryEscape/QueryUnescape and "
                  "cookie round trip for every byte string through a byte-level model of net/url and net/http's cookie "
-                 "sanitiser/parser); tie to the source of both kinds: the bodies of 12 accessors of context.go are translated to Lean on "
+                 "sanitiser/parser); tie to the source of both kinds: the bodies of 13 accessors of context.go are translated to Lean on "
                  "every run and proved equal to the model's accessors for all inputs (code-level refinement), and the real accessors are "
                  "run against the model on real requests (differential correspondence)",
     "level_text": "The accessor rule is a Lean theorem per accessor over Model/Access for all query strings, parameter maps, cookie "
@@ -381,10 +381,10 @@ PROPS["C18"] = {
                   "ParseBool, strings.TrimSpace, url.ParseQuery, cookie sanitising/parsing) is tied to /repo and the standard "
                   "library by a differential check through a real flamego instance on every run. CODE-LEVEL TIE: /verif/translator "
                   "regenerates Gen/ContextCode.lean from context.go on every run (the context struct and the bodies of Param, ParamInt, "
-                  "ParamInt64, Query, QueryTrim, QueryStrings, QueryUnescape, QueryBool, QueryInt, QueryInt64, Cookie, RemoteAddr as pure "
+                  "ParamInt64, Query, QueryTrim, QueryStrings, QueryUnescape, QueryBool, QueryInt, QueryInt64, Cookie, SetCookie, RemoteAddr as pure "
                   "functions; library calls stand for the models of Code/LibHTTP.lean) and Props/C18Code proves each generated body "
                   "equal to the model's accessor for every context, name and variadic default (…_refines), hence the property's one rule "
-                  "of the code's own bodies (code_…_rule), and that no accessor changes the context (code_accessors_pure). When the "
+                  "of the code's own bodies (code_…_rule), that no accessor changes the context (code_accessors_pure), and the cookie round trip from the bodies of SetCookie and Cookie themselves (setCookie_refines, code_cookie_roundtrip). When the "
                   "source leaves the translated subset or a refinement no longer checks, the evidence says so and the correspondence, "
                   "run at thorough depth, decides.",
     "level_note": "Trusted: Lean kernel; the translator of method bodies and the library models of Code/LibHTTP.lean (the hand-written model is additionally tied by differential testing); strconv.ParseFloat is a parameter "
@@ -410,7 +410,7 @@ PROPS["C18"] = {
         "code-level tie: the Go→Lean translator of method bodies (translator/gocode.go, contextcode.go) and Code/LibHTTP.lean, which "
         "says what each library call of the accessors stands for (in terms of the differentially checked models above); an index "
         "or slice expression out of range is a Go panic the translation does not represent (every `defaultVal[0]` is guarded by "
-        "`len(defaultVal) > 0`, which the proofs use); QueryFloat64, SetCookie, Redirect are not translated (listed in the "
+        "`len(defaultVal) > 0`, which the proofs use); QueryFloat64 and Redirect are not translated (listed in the "
         "generated file)"],
     "assumptions": ["strconv.IntSize = 64 (printed by the harness and compared on every session)",
                     "strconv.ParseFloat(\"\", 64) returns 0 (monitored: the oracle answer for the empty text is compared)",
